@@ -14,6 +14,7 @@ use crate::report::{par, Ctx, Report};
 use crate::rng::{tag, Rng};
 use crate::shapes::{build_from_parts, write_one};
 use shapefile::*;
+use std::convert::TryFrom;
 use std::io::Cursor;
 
 #[derive(Clone, Copy, Debug)]
@@ -232,12 +233,35 @@ fn one_case(t: i32, i: usize, ctx: &Ctx, rep: &mut Report) {
 
     // ---- write, then look at the bytes
     let mut shp = Cursor::new(Vec::new());
+    let mut shx = Cursor::new(Vec::new());
+    let mut dbf = Cursor::new(Vec::new());
+    // writing routes rotate: write_shape + finalize / bulk write_shapes (drop) / complete Writer
+    let route = (i / 5) % 3;
+    rep.count(["written_through:ShapeWriter::write_shape", "written_through:ShapeWriter::write_shapes(bulk)", "written_through:Writer::write_shape_and_record"][route], 1);
     let wrote = panicmon::catch(|| -> Result<(), Error> {
-        let mut w = ShapeWriter::new(&mut shp);
-        for s in &shapes {
-            write_one(&mut w, s)?;
+        match route {
+            0 => {
+                let mut w = ShapeWriter::new(&mut shp);
+                for s in &shapes {
+                    write_one(&mut w, s)?;
+                }
+                w.finalize()
+            }
+            1 => {
+                let w = ShapeWriter::with_shx(&mut shp, &mut shx);
+                for_type!(t, T => {
+                    let typed: Vec<T> = shapes.iter().map(|s| T::try_from(crate::shapes::clone_shape(s)).ok().expect("harness: type table")).collect();
+                    w.write_shapes(&typed)
+                })
+            }
+            _ => {
+                let mut w = Writer::new(ShapeWriter::with_shx(&mut shp, &mut shx), crate::e_c10::table_builder().build_with_dest(&mut dbf));
+                for (k, s) in shapes.iter().enumerate() {
+                    with_concrete!(s, x => w.write_shape_and_record(x, &crate::e_c10::row(k)))?;
+                }
+                Ok(())
+            }
         }
-        w.finalize()
     });
     match wrote {
         Ok(Ok(())) => {}
